@@ -8,6 +8,8 @@
     hqr  n H[n*n] shift P[3n]           -> R[n*n] cos[n-1] sin[n-1] QtHQ[n*n] QY(p)[n] QtY(p)[n] QY(P)[3n] QtY(P)[3n] YQ(P')[3n] YQt(P')[3n]
     tqr  n T[n*n] shift P[3n]           -> same layout (R, QtHQ from the TridiagQR overrides)
     dsqr n H[n*n] s t P[3n]             -> QtHQ[n*n] nr[n] u[3n] QtY(p)[n] YQ(P')[3n]
+    hqrh|tqrh n1 H1[n1*n1] s1 <hqr|tqr request>     -> the layout of the plain request, answered by ONE model object after
+    dsqrh n1 H1[n1*n1] s1 t1 <dsqr request>            `compute(H1, ..)` and then `compute(H, ..)` (`recompute`); u with nr = 1 columns cleared
   where matrices are column-major, `P` is n x 3, `p` its first column, `P'` its transpose (3 x n).
 -/
 import SpectraVerif.Driver.Util
@@ -80,6 +82,8 @@ def handle32 : List String → Option String
   | _ => none
 
 def mat (r c : Nat) (a : Array Float) : Mat Float := ⟨r, c, a⟩
+/-- contents of freshly reallocated storage in the reuse histories: a NaN -/
+def junk : Float := Float.ofBits 0x7ff8000000000000
 
 def applies (h : UpperHessenbergQR Float) (n : Nat) (P : Array Float) : List String :=
   let Pm := mat n 3 P
@@ -127,6 +131,56 @@ def handle : List String → Option String
       let p : Vec Float := P.extract 0 n
       pure (joinSp [showFloats q.matrix_QtHQ.d, joinSp (q.nr.toList.map toString), showFloats q.u.d,
                     showFloats (q.apply_QtY p), showFloats (q.apply_YQ Pm.transpose).d])
+  -- object-reuse histories: ONE model object, `compute(H1, s1)` then `compute(H, s)` on it (`recompute`); reallocated storage is
+  -- filled with NaN (`junk`), so a read of anything the second `compute` did not write shows up in the answer
+  | "hqrh" :: n1 :: rest => do
+      let n1 ← parseNat? n1
+      let (h1, rest) ← takeN? (n1 * n1) rest
+      let (s1, rest) ← takeN? 1 rest
+      let H1 ← floatArr? h1; let s1 ← floatArr? s1
+      match rest with
+      | "hqr" :: n :: rest => do
+          let n ← parseNat? n
+          let (hs, rest) ← takeN? (n * n) rest
+          let (sh, ps) ← takeN? 1 rest
+          if ps.length ≠ 3 * n then none
+          let H ← floatArr? hs; let sh ← floatArr? sh; let P ← floatArr? ps
+          let q := (UpperHessenbergQR.compute (mat n1 n1 H1) (s1.getD 0 0.0)).recompute junk (mat n n H) (sh.getD 0 0.0)
+          pure (joinSp ([showFloats q.matrix_R.d, showFloats q.cos, showFloats q.sin, showFloats q.matrix_QtHQ.d] ++ applies q n P))
+      | _ => none
+  | "tqrh" :: n1 :: rest => do
+      let n1 ← parseNat? n1
+      let (h1, rest) ← takeN? (n1 * n1) rest
+      let (s1, rest) ← takeN? 1 rest
+      let H1 ← floatArr? h1; let s1 ← floatArr? s1
+      match rest with
+      | "tqr" :: n :: rest => do
+          let n ← parseNat? n
+          let (hs, rest) ← takeN? (n * n) rest
+          let (sh, ps) ← takeN? 1 rest
+          if ps.length ≠ 3 * n then none
+          let H ← floatArr? hs; let sh ← floatArr? sh; let P ← floatArr? ps
+          let q := (TridiagQR.compute (mat n1 n1 H1) (s1.getD 0 0.0)).recompute junk (mat n n H) (sh.getD 0 0.0)
+          pure (joinSp ([showFloats q.matrix_R.d, showFloats q.cos, showFloats q.sin, showFloats q.matrix_QtHQ.d] ++ applies q.toHess n P))
+      | _ => none
+  | "dsqrh" :: n1 :: rest => do
+      let n1 ← parseNat? n1
+      let (h1, rest) ← takeN? (n1 * n1) rest
+      let (st1, rest) ← takeN? 2 rest
+      let H1 ← floatArr? h1; let st1 ← floatArr? st1
+      match rest with
+      | "dsqr" :: n :: rest => do
+          let n ← parseNat? n
+          let (hs, rest) ← takeN? (n * n) rest
+          let (st, ps) ← takeN? 2 rest
+          if ps.length ≠ 3 * n then none
+          let H ← floatArr? hs; let st ← floatArr? st; let P ← floatArr? ps
+          let q := (DoubleShiftQR.compute (mat n1 n1 H1) (st1.getD 0 0.0) (st1.getD 1 0.0)).recompute junk 7 (mat n n H) (st.getD 0 0.0) (st.getD 1 0.0)
+          let Pm := mat n 3 P
+          let p : Vec Float := P.extract 0 n
+          pure (joinSp [showFloats q.matrix_QtHQ.d, joinSp (q.nr.toList.map toString), showFloats q.uLive.d,
+                        showFloats (q.apply_QtY p), showFloats (q.apply_YQ Pm.transpose).d])
+      | _ => none
   | l => handle32 l
 
 end Drv.C08
